@@ -30,6 +30,8 @@ type Ctx struct {
 	fieldBufBad map[*types.Var]string
 	// simIdx caches, per function, which index expressions the effect normal form proves in range
 	scopeHelperMemo map[*types.Func]bool
+	happyMemo       map[*ast.FuncDecl][]spath
+	happyOK         map[*ast.FuncDecl]bool
 	synthObjs       []types.Object // objects the identifiers of a synthetic goal expression denote (propEntails)
 	simIdx          map[*ast.FuncDecl]map[*ast.IndexExpr]bool
 	simMapStore     map[*ast.FuncDecl]map[*ast.IndexExpr]bool
